@@ -37,10 +37,21 @@ Proof. unfold i32, i64, len_ok. lia. Qed.
 (* before the fix the same sum was computed in i32 *)
 Lemma last_index_i32_refuted : exists idx len, i32 idx /\ len_ok len /\ ~ i32 (len + idx - 1).
 Proof. exists 2147483647, 2. unfold i32, len_ok. repeat split; lia. Qed.
-(* the parser's `last - v` uses saturating_neg: always in range *)
+(* the parser's `last - v` (after the fix): v is read as an i64, negated with checked_neg (None exactly at i64::MIN, so the
+   negation itself never overflows) and kept only if it fits an i32 *)
+Definition last_minus (v : Z) : option Z :=
+  if v =? -9223372036854775808 then None
+  else if (-2147483648 <=? - v) && (- v <=? 2147483647) then Some (- v) else None.
+Lemma last_minus_in_range v n : i64 v -> last_minus v = Some n -> n = - v /\ i32 n /\ i64 (- v).
+Proof.
+  unfold i32, i64, last_minus. intros H. destruct (v =? -9223372036854775808) eqn:E; [discriminate|].
+  destruct ((-2147483648 <=? - v) && (- v <=? 2147483647)) eqn:R; [|discriminate]. intros [= <-]. lia.
+Qed.
+(* before that fix `last - v` read an i32 and used saturating_neg: in range, but `last-2147483648` (what the offset
+   i32::MIN prints as) was rejected and `last - -2147483648` silently became last+2147483647 *)
 Definition saturating_neg32 (v : Z) : Z := if v =? -2147483648 then 2147483647 else - v.
-Lemma saturating_neg_in_range v : i32 v -> i32 (saturating_neg32 v).
-Proof. unfold i32, saturating_neg32. intros. destruct (v =? -2147483648) eqn:E; lia. Qed.
+Lemma saturating_neg_not_neg : exists v, i32 v /\ saturating_neg32 v <> - v.
+Proof. exists (-2147483648). unfold i32, saturating_neg32. cbn. split; lia. Qed.
 
 (* slices: after clamping, the produced range lies inside the array *)
 Lemma slice_bounds s e len :
